@@ -1,1 +1,1 @@
-ALL_BINS := $(B)/asan/bin/c19_date
+ALL_BINS := $(B)/asan/bin/c01_array $(B)/asan/bin/c19_date
